@@ -6,7 +6,7 @@ import os
 VERIF = os.path.dirname(os.path.dirname(os.path.abspath(__file__)))
 props = [json.loads(l) for l in open(os.path.join(VERIF, "properties.jsonl"))]
 T = {
-"C01": ("Every received-set (all subsets with >= k of the k+r shards) of every configuration in [1..5]^2 (thorough [1..6]^2, chunk-edge configurations to n=17, one n=20) x {high,low,default,ReedSolomon*,one-shot} x all engines incl. emulated Neon is decoded on the real code from soiled working space and compared with the original data (also with shards of 4162 to 16450 (65730) bytes); a grid of mid-size configurations around every chunk-size boundary up to 4097 (8193) and large/envelope configurations (transform size classes up to the whole field) by complete pattern families, including hyperplane-shaped losses on whole-field configurations and 24 scattered erasure sets (exactly sufficient and with one surplus shard) wherever the work area reaches beyond position 32768; for 6 (11) mid-size configurations such as (70,70), (100,36), (36,100) every interval of missing originals, every pair of missing originals, every pair of recovery shards and every sub-cube loss {i : i & m == v} over all masks of the index bits (all chunk-, word- and stride-aligned patterns) through the rate codecs, ReedSolomon* and the one-shot functions; data with particular symbol values (zero shard, equal shards, 0xFFFF, equal halves).",
+"C01": ("Every received-set (all subsets with >= k of the k+r shards) of every configuration in [1..5]^2 (thorough [1..6]^2, chunk-edge configurations to n=17, one n=20) x {high,low,default,ReedSolomon*,one-shot} x all engines incl. emulated Neon is decoded on the real code from soiled working space and compared with the original data (also with shards of 4162 to 16450 (65730) bytes); a grid of mid-size configurations around every chunk-size boundary up to 4097 (8193) and large/envelope configurations (transform size classes up to the whole field) by complete pattern families, including hyperplane-shaped losses on whole-field configurations and 24 scattered erasure sets (exactly sufficient and with one surplus shard) wherever the work area reaches beyond position 32768; for 6 (8) mid-size configurations such as (70,70), (100,36), (36,100) every interval of missing originals, every pair of missing originals, every pair of recovery shards and every sub-cube loss {i : i & m == v} over all masks of the index bits (all chunk-, word- and stride-aligned patterns) through the rate codecs, ReedSolomon* and the one-shot functions; data with particular symbol values (zero shard, equal shards, 0xFFFF, equal halves).",
         "explicit-state enumeration of the received-set lattice on the real decoder"),
 "C02": ("The implementation's whole generator matrix is read back (basis-in-slots data for [1..64]^2 / [1..130]^2, unit vectors for a grid up to 4097 (8193) and for envelope configurations) and compared entry by entry with the closed form of the property computed by an independent field implementation; ancestor crate reed-solomon-16 as second oracle; every recovery byte of dense shards with short final blocks and of long shards (to 16 KiB, thorough 64 KiB), two rounds per encoder, against G*data, also for data made of particular symbol values (an all-zero shard, two equal shards, 0xFFFF, equal low/high halves, cycles of 0/1/0xFFFF/0x00FF/0xFF00/0x8000) on [1..8]^2 and mid-size configurations. Per configuration the comparison is total (the matrix is the function).",
         "small-scope exhaustive enumeration against a closed-form oracle"),
